@@ -14,15 +14,17 @@ From Interval Require Import Specific_stdz Specific_ops Float_full Interval Xrea
 (* ------------------------------------------------------------------ 1. exact layer *)
 
 (* apen.py:26-33  the four branches of the type dispatch.  The payload of SeqList / SeqArray is the
-   integer content: after the fixes 8fd721a (ndarray -> .tolist()) and bf18ea2 (list -> list(sequence))
-   both branches compute abs(ua - va) on the Python ints themselves, exact for every magnitude; the str
-   branch computes on int64 digits 0..9.  (A list whose elements are NumPy scalars, e.g. np.uint8, is
-   not "a list of ints": its differences still wrap.  Outside the model.) *)
+   integer content: after the fixes 8fd721a (ndarray -> .tolist()), bf18ea2 (list -> Python list) and
+   7e39c45 (NumPy scalar items of a list -> .item()) both branches compute abs(ua - va) on Python
+   numbers, exact for every magnitude and every item type (np.uint8 items no longer wrap, np.bool_ and
+   Python bools count as 0/1); the str branch computes on int64 digits 0..9. *)
 Inductive seq_input :=
 | SeqStr (s : string)        (* type(sequence) is str *)
 | SeqList (zs : list Z)      (* type(sequence) is list *)
 | SeqArray (zs : list Z)     (* type(sequence) is np.ndarray (any integer dtype) *)
-| SeqOther.                  (* tuple, range, bytes, ... *)
+| SeqListNoSub               (* a list whose items do not support `-` (str, None): accepted by the
+                                type dispatch, then abs(ua - va) raises; class not constrained by C19 *)
+| SeqOther.                  (* tuple, range, bytes, deque, ... *)
 
 (* int(x) for one ASCII character x: the ten digits, anything else raises ValueError *)
 Definition digit_of_ascii (c : ascii) : option Z :=
@@ -51,6 +53,7 @@ Definition normalise (inp : seq_input) : res (list Z) :=
   | SeqStr s => digits_of_string s
   | SeqList zs => Ok zs
   | SeqArray zs => Ok zs
+  | SeqListNoSub => Raise OtherError   (* stands for "some exception"; Corr compares it as "rejected" *)
   | SeqOther => Raise TypeError
   end.
 
